@@ -85,3 +85,116 @@ def stage_defaultcap(pid, tier, seed, d, binp, st, ctx):
     return dict(coverage={"behaviours_executed_each_in_a_fresh_process": len(behs), "exhaustive": tier == "thorough"},
                 violations=viol, traces=len(behs), samples=[{"stage": "defaultcap", "ops": behs[min(9, len(behs) - 1)]}],
                 nontrivial_keys=["cap" + hashlib.sha1(json.dumps(b).encode()).hexdigest() for b in behs if len(b) >= 2])
+
+
+def stage_stress(pid, tier, seed, d, binp, st, ctx):
+    """Channel C: seeded random workloads on real threads, judged by the monitors with strict = FALSE."""
+    iters = st["iters"][tier]
+    mix = st.get("mix", "mixed")
+    tr = os.path.join(d, "stress_%s.ndjson" % st["name"])
+    p = ctx["run"]([binp, "stress", "--iters", str(iters), "--seed", str(seed), "--par", "16", "--mix", mix, "--out", tr],
+                   cwd=d, timeout=3600)
+    files, nruns, nev = ctx["split_trace"](tr, d, "stress_" + st["name"], ctx["NCPU"])
+    bads = ctx["trace_monitor"](d, files)
+    json.dump(bads, open(os.path.join(d, "bads_stress_%s.json" % st["name"]), "w"))
+    props = set(st.get("props", [pid]))
+    mine = [b for b in bads if b[2] in props]
+    viol = []
+    runs = None
+    seen = set()
+    for (rid, line, prop, why) in mine:
+        if rid in seen:
+            continue
+        seen.add(rid)
+        if runs is None:
+            runs = ctx["load_runs"](tr)
+        rp = ctx["save_replay"](pid, "stress_" + st["name"], rid, None, runs.get(rid, []), [b for b in bads if b[0] == rid])
+        viol.append(("stress_" + st["name"], rid, prop, why, rp))
+        if len(viol) >= 10:
+            break
+    # a small sample and the non-trivial count (runs in which an operation of the relevant API family ended)
+    sample = []
+    keys = []
+    apis = st.get("apis")
+    n = 0
+    with open(tr) as f:
+        cur = None
+        for line in f:
+            if '"e":"Reset"' in line:
+                cur = json.loads(line)["run"]
+            elif '"e":"OpStart"' in line:
+                ev = json.loads(line)
+                if apis is None or ev.get("api") in apis:
+                    keys.append("stress_%s_%s" % (st["name"], cur))
+                    if len(sample) < 2:
+                        sample.append({"stage": "stress_" + st["name"], "run": cur, "op": ev})
+    ctx["log"]("stress %s: %d runs, %d events on real threads, violations of %s: %d" % (st["name"], nruns, nev, sorted(props), len(seen)))
+    return dict(coverage={"runs": nruns, "events": nev, "mix": mix, "seed": seed}, violations=viol, traces=nruns,
+                samples=sample, nontrivial_keys=sorted(set(keys)))
+
+
+def stage_macro(pid, tier, seed, d, binp, st, ctx):
+    """C19: rows of MacroTable.tla -> corpus crate compiled against the real macros -> TLC validates."""
+    import gen_corpus, shutil, time
+    out = tlc_assume(d, "MacroTable", {"LAWMODE": "gen", "ROWSET": "all" if tier == "thorough" else "quick"}, "rowgen")
+    rows = tagged_json(out, "ROWS")
+    if not rows:
+        open(os.path.join(d, "MacroTable.out"), "w").write(out)
+        raise ctx["ToolError"]("MacroTable generation failed")
+    cd = os.path.join(d, "corpus")
+    shutil.rmtree(cd, ignore_errors=True)
+    os.makedirs(cd)
+    gen_corpus.write_crate(rows, cd)
+    shutil.copy2("/verif/harness/Cargo.lock", os.path.join(cd, "Cargo.lock"))
+    env = dict(os.environ)
+    env.update({"CARGO_TARGET_DIR": "/verif/harness/target_corpus", "CARGO_NET_OFFLINE": "true",
+                "RUSTFLAGS": "--cfg rsactor_verif --check-cfg cfg(rsactor_verif)"})
+    t0 = time.time()
+    p = subprocess.run(["cargo", "check", "--offline", "--bins", "--keep-going", "--message-format=json"],
+                       cwd=cd, env=env, text=True, capture_output=True, timeout=3600)
+    failed = set()
+    for line in p.stdout.splitlines():
+        if not line.startswith("{"):
+            continue
+        try:
+            m = json.loads(line)
+        except ValueError:
+            continue
+        if m.get("reason") == "compiler-message" and m.get("message", {}).get("level") == "error":
+            failed.add(m["target"]["name"])
+    if "runner" in failed or ("error: could not compile" not in p.stderr and p.returncode != 0 and not failed):
+        open(os.path.join(d, "corpus_check.err"), "w").write(p.stderr[-20000:])
+        raise ctx["ToolError"]("corpus crate could not be checked (see corpus_check.err)")
+    compiled = [i for i in range(len(rows)) if ("r%d" % i) not in failed]
+    ctx["log"]("macro corpus: %d programs, %d compile, %d rejected by the compiler (%.0fs)" %
+               (len(rows), len(compiled), len(rows) - len(compiled), time.time() - t0))
+    gen_corpus.write_runner(rows, compiled, cd)
+    p = subprocess.run(["cargo", "run", "--offline", "--bin", "runner"], cwd=cd, env=env, text=True,
+                       capture_output=True, timeout=3600)
+    if p.returncode != 0:
+        open(os.path.join(d, "corpus_run.err"), "w").write(p.stderr[-20000:] + "\n" + p.stdout[-5000:])
+        raise ctx["ToolError"]("corpus runner failed (see corpus_run.err)")
+    obs = {}
+    for line in p.stdout.splitlines():
+        if line.startswith("ROW "):
+            _, i, js = line.split(" ", 2)
+            obs[int(i)] = json.loads(js)
+    tp = os.path.join(d, "macro_trace.ndjson")
+    with open(tp, "w") as f:
+        for i, row in enumerate(rows):
+            o = obs.get(i, {"compiles": False})
+            f.write(json.dumps({"row": row, "obs": o}) + "\n")
+    out = tlc_assume(d, "MacroTable", {"LAWMODE": "check", "TRACE": tp, "ROWSET": "x"}, "rowchk")
+    if "ROWSCHECKED" not in out:
+        open(os.path.join(d, "MacroTable.out"), "w").write(out)
+        raise ctx["ToolError"]("MacroTable check did not complete")
+    bad = [l for l in out.splitlines() if "ROWBAD" in l]
+    viol = []
+    if bad:
+        rp = ctx["save_replay"](pid, "macro", 0, None, [json.loads(l) for l in open(tp)], bad[:8])
+        viol.append(("macro", 0, pid, "generated code differs from the decision table: " + bad[0][:400], rp))
+    return dict(coverage={"programs_generated": len(rows), "compiled_and_run": len(compiled),
+                          "rejected_by_compiler": len(rows) - len(compiled), "exhaustive": tier == "thorough"},
+                violations=viol, traces=len(rows),
+                samples=[{"stage": "macro", "row": rows[0]}, {"stage": "macro", "row": rows[-1]}],
+                nontrivial_keys=["row%d" % i for i in range(len(rows))])
